@@ -10,13 +10,15 @@ model("Notification", module="usim._primitives.notification",
 
 owner_stable("Interrupt", ["sub", "_revoked", "token"],
              why="scan W8: revoke()/__subscribe__/__unsubscribe__ are only applied by the activity that owns the interrupt")
-owner_stable("Interrupt", ["target", "due"], when="scheduled",
-             why="K2: target/due are written by Loop.schedule only, and every interrupt is scheduled at most once")
+owner_stable("Interrupt", ["due"], when="scheduled",
+             why="K2: due is written by Loop.schedule only, and every interrupt is scheduled at most once")
+owner_stable("Interrupt", ["target"], when="scheduled|sub",
+             why="K2/K7: target is written by schedule/__subscribe__ only, always with the subscribed waiter")
 monotone("Interrupt", ["scheduled"], why="scan W1: `scheduled` is only ever assigned True")
 
 invariant("Notification", "waiting_wf",
-          "forall(self._waiting, lambda w: w[1] is not None and w[1].sub is self and not w[1].scheduled "
-          "       and w[1].target is w[0])",
+          "forall(self._waiting, lambda w: w[0] is not None and w[1] is not None and w[1].sub is self "
+          "       and not w[1].scheduled and not w[1]._revoked and w[1].target is w[0])",
           props=["C03", "C09", "C10"])
 invariant("Notification", "waiting_pos",
           "forall(int, lambda k: implies(0 <= k and k < len(self._waiting), self._waiting[k][1].pos == k))",
@@ -26,14 +28,14 @@ invariant("Interrupt", "parked_or_scheduled",
           "        0 <= self.pos and self.pos < len(self.sub._waiting) and self.sub._waiting[self.pos] == (self.target, self))",
           props=["C03"])
 
-contract("usim._primitives.notification.Notification.__init__",
+contract("usim._primitives.notification.Notification.__init__", inv_scope=["Notification", "Interrupt.parked_or_scheduled"],
          params={"self": REF("Notification")},
          requires=["forall(Interrupt, lambda i: i.sub is not self)"],     # the object is fresh
          ensures=["len(self._waiting) == 0"], modifies=["Notification._waiting@self"], props=["C03"], inline=True)
 
-contract("usim._primitives.notification.Notification.__subscribe__",
+contract("usim._primitives.notification.Notification.__subscribe__", inv_scope=["Notification", "Interrupt.parked_or_scheduled"],
          params={"self": REF("Notification"), "waiter": ANY, "interrupt": REF("Interrupt")},
-         requires=["interrupt.sub is None", "not interrupt.scheduled", "waiter is not None"],
+         requires=["interrupt.sub is None", "not interrupt.scheduled", "not interrupt._revoked", "waiter is not None"],
          ensures=["self._waiting == old(self._waiting) + [(waiter, interrupt)]",
                   "interrupt.sub is self and interrupt.target is waiter",
                   "interrupt.scheduled == old(interrupt.scheduled) and interrupt._revoked == old(interrupt._revoked)"],
@@ -41,7 +43,7 @@ contract("usim._primitives.notification.Notification.__subscribe__",
          modifies=["Notification._waiting@self", "Interrupt.sub@interrupt", "Interrupt.target@interrupt", "Interrupt.pos@interrupt"],
          props=["C03", "C07", "C09", "C10", "C11", "C02"])
 
-contract("usim._primitives.notification.Notification.__unsubscribe__",
+contract("usim._primitives.notification.Notification.__unsubscribe__", inv_scope=["Notification", "Interrupt.parked_or_scheduled"],
          params={"self": REF("Notification"), "waiter": ANY, "interrupt": REF("Interrupt")},
          requires=["interrupt.sub is self", "interrupt.target is waiter"],
          ensures=["interrupt.sub is None",
@@ -56,15 +58,58 @@ contract("usim._primitives.notification.Notification.__unsubscribe__",
          modifies=["Notification._waiting@self", "Interrupt.sub@interrupt", "Interrupt._revoked@interrupt", "Interrupt.pos"],
          props=["C03", "C07", "C09", "C10", "C11", "C13"])
 
-contract("usim._primitives.notification.Notification.__awake_next__",
+contract("usim._primitives.notification.Notification.__awake_next__", inv_scope=["Notification", "Interrupt.parked_or_scheduled"],
          params={"self": REF("Notification")}, returns=SUB,
          requires=["True"],
          raises={"NoSubscribers": dict(when="len(self._waiting) == 0",
-                                       ensures=["self._waiting == old(self._waiting)", "loop._pending == old(loop._pending)"])},
+                                       ensures=["self._waiting == old(self._waiting)", "loop._pending == old(loop._pending)",
+                                                'unchanged("Interrupt.scheduled", "Interrupt.target", "Interrupt.due", "Interrupt.pos")'])},
          ensures=["result == old(self._waiting)[0]",
                   "self._waiting == old(self._waiting)[1:]",
                   "loop._pending == old(loop._pending) + [Activation(result[0], result[1])]",
                   "result[1].scheduled and result[1].due == loop.time and result[1].target is result[0]",
                   "loop.time == old(loop.time)"],
-         modifies=["Notification._waiting@self", "Loop._pending@loop", "Interrupt.scheduled", "Interrupt.target", "Interrupt.due", "Interrupt.pos"],
+         modifies=["Notification._waiting@self", "Loop._pending@loop", "Interrupt.scheduled@self._waiting[0][1]",
+                   "Interrupt.target@self._waiting[0][1]", "Interrupt.due@self._waiting[0][1]", "Interrupt.pos"],
          props=["C02", "C09", "C10"])
+
+# ---------------------------------------------------------------- K6: postpone / suspend
+DEAD_NEW = "forall_new(Interrupt, lambda i: i.sub is None and (i._revoked or not i.scheduled))"
+
+contract("usim._primitives.notification.postpone",
+         inv_scope=["Notification", "Interrupt.parked_or_scheduled"],
+         params={},
+         requires=["loop.activity is me"],
+         asserts={1: "internal"},
+         suspends=(1, None),
+         ensures=["loop.time == old(loop.time)", "loop.activity is me"],
+         on_signal=["loop.activity is me"], on_close=[],
+         on_exit=[DEAD_NEW],                  # every exit route: the private wake-up is dead (C03a)
+         props=["C01", "C03", "C20"])
+
+contract("usim._primitives.notification.suspend",
+         inv_scope=["Notification", "Interrupt.parked_or_scheduled"],
+         params={"delay": OPT(REAL), "until": OPT(REAL)},
+         requires=["loop.activity is me", "delay is None or until is None",
+                   "delay is None or delay > 0", "until is None or until > loop.time"],
+         asserts={1: "internal"},
+         suspends=(1, None),
+         ensures=["implies(delay is not None, loop.time == old(loop.time) + delay)",
+                  "implies(delay is None and until is not None, loop.time == until)",
+                  "implies(delay is None and until is None, loop.time == old(loop.time))",
+                  "loop.activity is me"],
+         on_signal=["loop.activity is me"], on_close=[],
+         on_exit=[DEAD_NEW],
+         props=["C01", "C03", "C20", "C14"])
+
+contract("usim._primitives.notification.Notification.__await__",
+         inv_scope=["Notification", "Interrupt.parked_or_scheduled"], inline=True,
+         note="callers inline it: the subscription it creates interacts with the invariants of Lock/Queue/Channel/Scope",
+         params={"self": REF("Notification")},
+         requires=["loop.activity is me"],
+         asserts={1: "internal"},
+         suspends=(1, None),
+         ensures=["loop.activity is me"],
+         on_signal=["loop.activity is me"], on_close=[],
+         on_exit=[DEAD_NEW],
+         props=["C03", "C20", "C07"])
